@@ -119,6 +119,34 @@ def run(ctx, b, broken):
                 break
         if len(ctx.samples) < 3:
             ctx.sample({"texts": [t[:60] for t in texts], "schedule": sched[:30]})
+    # instances used one after the other in ONE process (no interleaving at all), each on its own input - valid programs,
+    # programs failing at every kind of place - against what each input gives in a fresh interpreter where nothing else ever ran
+    pool = CLASH + ["typedef unsigned long word_f }", "typedef int T ; }", "typedef char U ; } }", "int T ; }", "struct S { int T ; } ; }", "void f ( void ) { typedef int W ; } }",
+                    "enum { word_f } ;", "void g ( void ) { word_f : ; T : ; U : ; W : ; }", "int word_f , W ;", "typedef int T ; T a ;", "U b ;", "W c ;", "T * d ;",
+                    "# 9 \"z.h\"\nint q ; @", "int r ;", "#pragma once\nint s", "#pragma", "__builtin_va_list ap ;", "typedef int __builtin_va_list ;"]
+    seqs = []
+    for _ in range(40 if ctx.tier == "quick" else 600):
+        seqs.append([(ctx.rng.choice(pool), f"s{j}.c") for j in range(ctx.rng.randint(2, 6))])
+    distinct = sorted({it for sq in seqs for it in sq})
+    fresh = dict(zip(distinct, pristine_outcomes(distinct)))
+    from pycparser import c_parser as _cp
+    for sq in seqs:
+        ctx.evaluations += 1
+        ctx.count("suite:sequential-instances")
+        ctx.nontriv(repr(sq))
+        for j, (text, fn) in enumerate(sq):
+            try:
+                got = "OK" + US + show_ast(_cp.CParser().parse(text, fn), True)
+            except _cp.ParseError as e:
+                got = "E" + US + str(e)
+            except RecursionError:
+                got = "R"
+            except Exception as e:
+                got = "C" + US + type(e).__name__
+            if got != fresh[(text, fn)] and "R" not in (got, fresh[(text, fn)]):
+                su.violation(text, f"a brand-new CParser used after other instances gave {got[:100]!r}; in a fresh interpreter the same call gives {fresh[(text, fn)][:100]!r}",
+                             {"earlier_instances_parsed": [t for t, _ in sq[:j]]})
+                break
     # free-running threads
     from pycparser import c_generator
     old = _sys.getswitchinterval()
